@@ -85,7 +85,12 @@ ASSUMPTIONS = [
 #   colnames        positional field N spelled `colN:` in some heads / calls and not in
 #                   others: rejected ("inconsistent rules" / "does not have argument")
 KNOWN_CLASSES = ('rec_field', 'rec_arg_lit', 'neq', 'sibling_locals', 'colnames')
-INCLUDE = set(x for x in os.environ.get('VERIF_C05_INCLUDE', '').split(',') if x)
+# All five classes were repaired in /repo (fix: commits 0b4c870 rec_field, 8ddf0e3
+# rec_arg_lit, 2fad383 sibling_locals, 723089e colnames, c2ec532 neq): every class is
+# included by default; VERIF_C05_EXCLUDE=a,b keeps a class away again.
+_EXC = set(x for x in os.environ.get('VERIF_C05_EXCLUDE', '').split(',') if x)
+INCLUDE = (set(KNOWN_CLASSES) | set(
+    x for x in os.environ.get('VERIF_C05_INCLUDE', '').split(',') if x)) - _EXC
 
 OPTS = dict(p_colnames=0.0, p_neg=0.25, p_agg=0.35, p_distinct=0.4, p_null_fact=0.0,
             p_or=0.3, p_fcall=0.1, p_sibling_reuse=0.35, p_feed_sibling=0.3,
